@@ -2,8 +2,8 @@
 
   c17.decode <hex>          what the read-fonts reader model (Model/Glyf.lean, through `SubsetOutline.decodeGlyph`'s
                             dispatch) decodes a glyph record to:
-      simple     S <nc> <xMin> <yMin> <xMax> <yMax> E <endPts…> P <x y on>… F <x y on>… | F none
-      composite  C <xMin> <yMin> <xMax> <yMax> K <flags gid (o x y | p base comp) xx yx xy yy>…
+      simple     S <nc> <xMin> <yMin> <xMax> <yMax> E <endPts…> P <x y on>… F <x y on>… | F none  I <instructions hex>
+      composite  C <xMin> <yMin> <xMax> <yMax> K <flags gid (o x y | p base comp) xx yx xy yy>… I <hex | none>
       unreadable err
   c17.decsub <flags> M <old new>… D <hex>
                             `subset_glyph` (model) followed by the decode of its output, and the glyph-id renaming of
@@ -30,10 +30,10 @@ def fmtSimple (v : Glyf.SimpleView) : String :=
   let fast := match v.readPointsFast with
     | none => "none"
     | some l => listOr (l.map (fun (t : Int × Int × Nat) => s!"{t.1} {t.2.1} {t.2.2}"))
-  s!"S {v.nContours} {v.xMin} {v.yMin} {v.xMax} {v.yMax} E {joinNats v.endPts} P {listOr (v.points.map fmtPoint)} F {fast}"
+  s!"S {v.nContours} {v.xMin} {v.yMin} {v.xMax} {v.yMax} E {joinNats v.endPts} P {listOr (v.points.map fmtPoint)} F {fast} I {toHex v.instructions}"
 
-def fmtComposite (xMin yMin xMax yMax : Int) (cs : List Glyf.RComponent) : String :=
-  s!"C {xMin} {yMin} {xMax} {yMax} K {listOr (cs.map fmtComp)}"
+def fmtComposite (xMin yMin xMax yMax : Int) (cs : List Glyf.RComponent) (instr : Option (List Nat)) : String :=
+  s!"C {xMin} {yMin} {xMax} {yMax} K {listOr (cs.map fmtComp)} I {match instr with | none => "none" | some i => toHex i}"
 
 def decodeStr (d : Bytes) : String :=
   if u16At d 0 < 32768 then
@@ -43,21 +43,22 @@ def decodeStr (d : Bytes) : String :=
   else
     match Glyf.readComposite d with
     | none => "err"
-    | some v => fmtComposite v.xMin v.yMin v.xMax v.yMax v.components
+    | some v => fmtComposite v.xMin v.yMin v.xMax v.yMax v.components v.instructions
 
-/-- the renamed decode of the original, printed like `decodeStr` (the simple case is the original's own decode) -/
+/-- the renamed decode of the original, printed like `decodeStr` (simple: the original's own decode; instructions:
+the original's, none under NO_HINTING) -/
 def renamedStr (flags : Nat) (gmap : Nat → Option Nat) (d : Bytes) : String :=
   if u16At d 0 < 32768 then
     match Glyf.readSimple d with
     | none => "none"
-    | some v => fmtSimple v
+    | some v => fmtSimple (if hasFlag flags F_NO_HINTING then { v with instructions := [] } else v)
   else
     match Glyf.readComposite d with
     | none => "none"
     | some v =>
       match mapComps flags gmap true v.components with
       | none => "none"
-      | some cs => fmtComposite v.xMin v.yMin v.xMax v.yMax cs
+      | some cs => fmtComposite v.xMin v.yMin v.xMax v.yMax cs (if hasFlag flags F_NO_HINTING then none else v.instructions)
 
 def sections (markers : List String) (args : List String) : Option (List (List String)) :=
   match markers with
